@@ -262,12 +262,14 @@ class EsTreeGen:
             ops = ["AndOperation", "OrOperation", "UnknownOperation"] + (["BoolOperation"] if self.bool_ops else [])
             cls = r.choice(ops)
             n = r.choice([2, 2, 3, 4])
-            wide = r.random() < 0.004
+            wide = r.random() < 0.006
             if wide:
                 # beyond any "reasonable" limit a change may introduce (a clause count, a chunk size): seeded C05-G
-                n = r.choice([130, 1030])
+                n = r.choice([130, 1030, 1030])
+                if self.bool_ops and r.random() < 0.5:
+                    cls = "BoolOperation"
             ch = []
-            wrap = r.choice([None, None, "Prohibit", "Plus", "Not"]) if wide else None
+            wrap = r.choice([None, "Prohibit", "Prohibit", "Plus", "Not"]) if wide else None
             for _ in range(n):
                 if wide and r.random() < 0.97:
                     c = self.leaf() if wrap is None or r.random() < 0.2 else self.nm(gen.mk(wrap, [self.leaf()]))
@@ -378,13 +380,22 @@ def desc(o, path):
 
 
 class Truth:
-    def __init__(self, rng):
-        self.rng = rng
+    """a truth value per (object, clause), drawn lazily; `p` = probability of true (documents that match nearly
+    nothing / nearly everything matter for long operand lists: with p = 1/2 a list of a thousand clauses has
+    one value only)"""
 
-    def __call__(self, o, key):
+    def __init__(self, rng, p=0.5, polar=None):
+        self.rng = rng
+        self.p = p
+        self.polar = polar      # True: clauses in positive position true, negated ones false; False: the inverse
+
+    def __call__(self, o, key, neg=None):
         t = o["truth"]
         if key not in t:
-            t[key] = self.rng.random() < 0.5
+            if self.polar is not None and neg is not None and self.rng.random() < 0.97:
+                t[key] = (not neg) if self.polar else bool(neg)
+            else:
+                t[key] = self.rng.random() < self.p
         return t[key]
 
 
@@ -443,7 +454,7 @@ def _mod_key(x):
         return str(x)
 
 
-def denote(d, o, cfg, containers, truth, prefix=(), quirks=(), mod=None):
+def denote(d, o, cfg, containers, truth, prefix=(), quirks=(), mod=None, neg=False):
     """truth of the luqum tree (json) at object o. `quirks` switches on the behaviour of known findings
     (KF3: operands of a boolean operation are classified through group / field / boost wrappers;
     KF4: a boolean operation directly inside another one is spliced into it)"""
@@ -452,8 +463,8 @@ def denote(d, o, cfg, containers, truth, prefix=(), quirks=(), mod=None):
     dflt_or = cfg.get("default_operator", "should") == "should"
     field = ".".join(prefix) if prefix else cfg.get("default_field", "text")
 
-    def rec(x, oo=o, pp=prefix, mod=None):
-        return denote(x, oo, cfg, containers, truth, pp, quirks, mod)
+    def rec(x, oo=o, pp=prefix, mod=None, flip=False):
+        return denote(x, oo, cfg, containers, truth, pp, quirks, mod, neg != flip)
     # (a term and the same term with a fuzziness / slop are different clauses: `smith` and `smith~1` do not match the
     # same documents; the modifier is part of the key the truth assignment is drawn for -- seeded C05-G)
     # (per-field options may also bring a fuzziness / slop: the clause carries the query's own modifier, else the option's)
@@ -462,14 +473,14 @@ def denote(d, o, cfg, containers, truth, prefix=(), quirks=(), mod=None):
     suffix = (_mod_key(mod[1]),) if mod else ()
     if c == "Word":
         # (`field:*` is an exists clause: a fuzziness has nothing to apply to)
-        return truth(o, (field, d["v"]) + (suffix if d["v"] != "*" else ()))
+        return truth(o, (field, d["v"]) + (suffix if d["v"] != "*" else ()), neg)
     if c == "Phrase":
         na = cfg.get("not_analyzed_fields") or []
-        return truth(o, (field, phrase_text(d["v"]) if field not in na else d["v"][1:-1]) + suffix)
+        return truth(o, (field, phrase_text(d["v"]) if field not in na else d["v"][1:-1]) + suffix, neg)
     if c == "Range":
         kw = {("gte" if d["il"] else "gt"): ch[0].get("v"), ("lte" if d["ih"] else "lt"): ch[1].get("v")}
         kw = {k: v for k, v in kw.items() if v and v != "*"}
-        return truth(o, (field, json.dumps(kw, sort_keys=True)))
+        return truth(o, (field, json.dumps(kw, sort_keys=True)), neg)
     if c in ("Fuzzy", "Proximity"):
         n = d["num"]
         val = (-1 if n.get("neg") else 1) * int(n["coeff"]) * (10.0 ** n["exp"])
@@ -477,7 +488,7 @@ def denote(d, o, cfg, containers, truth, prefix=(), quirks=(), mod=None):
     if c in ("Boost", "Group", "FieldGroup", "Plus"):
         return rec(ch[0], mod=mod)
     if c in ("Not", "Prohibit"):
-        return not rec(ch[0])
+        return not rec(ch[0], flip=True)
     if c == "AndOperation":
         return all(rec(x) for x in ch)
     if c == "OrOperation":
@@ -528,7 +539,7 @@ def denote(d, o, cfg, containers, truth, prefix=(), quirks=(), mod=None):
                 should.append((x, o, prefix))
         if not all(rec(x, oo, pp) for x, oo, pp in must):
             return False
-        if any(rec(x, oo, pp) for x, oo, pp in mnot):
+        if any(rec(x, oo, pp, flip=True) for x, oo, pp in mnot):
             return False
         if not must and should:
             return any(rec(x, oo, pp) for x, oo, pp in should)
